@@ -57,6 +57,6 @@ func TestGovcReplay(t *testing.T) {
 			t.Fatal("inconsistent observation")
 		case <-time.After(200 * time.Millisecond):
 		}
-		t.Fatalf("lost wake-up: lock free, size=%d cur=%d, %d waiter(s) queued and the first one (weight 0) fits but stays parked", size, cur, n)
+		t.Fatalf("REPRODUCED: lost wake-up: lock free, size=%d cur=%d, %d waiter(s) queued and the first one (weight 0) fits but stays parked", size, cur, n)
 	}
 }
